@@ -169,6 +169,9 @@ def eval_seq(case):
         notes = [n for n in doc.get('additional_notes', []) if 'strict key exchange' in n]
         if bool(notes) != bool(has_marker and vs):
             fails.append(['advisory-note-in-multi-target-run', '%s: %d advisory notes, marker %s, affected %r' % (tag, len(notes), has_marker, vs)])
+        badd = [(cat, name) for level, action, cat, name, _ in report.JsonReport(doc).recs() if action == 'add' and (refmodel.is_chacha(name) or refmodel.is_cbc(name) or refmodel.is_etm(name))]
+        if badd:
+            fails.append(['terrapin-class-algorithm-recommended-for-addition-in-multi-target-run', '%s: %r' % (tag, badd)])
     return mkres(case, nt=True, classes=['seq', 'n:%d' % len(ms), 'threads:%d' % case.get('threads', 1)], fails=fails[:4])
 
 
@@ -314,9 +317,13 @@ def run(ctx):
         cases.append({'kind': 'asym', 'role': ('server', 'client')[i % 2], 'marker': i % 4 >= 2, 'subs': subs})
     # sequences: 2-4 server shapes in one run, an exposed one in front of protected / unaffected ones and the other way round
     srv = [instantiate(sx, rot0 + i, neigh=i % 5) for i, sx in enumerate(sh) if sx[0] == 'server' and (sx[2] or sx[3] or sx[4])]
+    bare = [instantiate(sx, rot0 + i, neigh=i % 5) for i, sx in enumerate(sh) if sx[0] == 'server' and not (sx[2] or sx[3] or sx[4])]
     for i in range(60 if ctx.quick else 900):
         k = 2 + i % 3
         ms = [srv[(i * 37 + j * 101 + ctx.seed) % len(srv)] for j in range(k)]
+        if i % 3 == 0:
+            # a server on which the operator disabled all of it, behind (or in front of) ones that have it enabled
+            ms[(i // 3) % k] = bare[(i + ctx.seed) % len(bare)]
         cases.append({'kind': 'seq', 'members': [{'kex': m['kex'], 'enc': m['enc'], 'mac': m['mac']} for m in ms], 'threads': 1 + i % 2})
     # every CBC cipher and every ETM MAC of the table at least once in an exposed and in an advisory configuration
     for i, c in enumerate(C['cbc']):
